@@ -1,4 +1,5 @@
-package main
+// Package hx: shared plumbing of the correspondence harnesses (PRNG, case files, Coq syntax).
+package hx
 
 import (
 	"encoding/json"
@@ -6,8 +7,40 @@ import (
 	"os"
 	"path/filepath"
 	"sort"
+	"strconv"
 	"strings"
 )
+
+// Main is the entry point of every harness binary: harness_<prop> <outdir> [replay.json]
+// Environment: VERIF_SEED (int), VERIF_TIER (quick|thorough).
+func Main(prop string, fn func(env *Env) error) {
+	if len(os.Args) < 2 {
+		fmt.Fprintln(os.Stderr, "usage: harness <outdir> [replay.json]")
+		os.Exit(2)
+	}
+	seed := uint64(1)
+	if s := os.Getenv("VERIF_SEED"); s != "" {
+		if v, err := strconv.ParseInt(s, 10, 64); err == nil {
+			seed = uint64(v)
+		}
+	}
+	tier := os.Getenv("VERIF_TIER")
+	if tier == "" {
+		tier = "quick"
+	}
+	env := NewEnv(prop, os.Args[1], seed, tier)
+	if len(os.Args) > 2 {
+		env.Replay = os.Args[2]
+	}
+	if err := fn(env); err != nil {
+		fmt.Fprintln(os.Stderr, "harness error:", err)
+		os.Exit(3)
+	}
+	if err := env.Finish(); err != nil {
+		fmt.Fprintln(os.Stderr, "harness error:", err)
+		os.Exit(3)
+	}
+}
 
 // Rng: splitmix64; every random choice of a run derives from VERIF_SEED.
 type Rng struct{ s uint64 }
@@ -25,7 +58,7 @@ func (r *Rng) Intn(n int) int {
 	}
 	return int(r.U64() % uint64(n))
 }
-func (r *Rng) Bool() bool       { return r.U64()&1 == 1 }
+func (r *Rng) Bool() bool        { return r.U64()&1 == 1 }
 func (r *Rng) Chance(p int) bool { return r.Intn(100) < p } // p percent
 func (r *Rng) Bytes(n int) []byte {
 	out := make([]byte, n)
@@ -38,26 +71,26 @@ func (r *Rng) Fork() *Rng { return &Rng{s: r.U64()} }
 
 // Case: one input with what Go did on it.
 type Case struct {
-	Coq   string      // Coq term of the property's case type
-	Kind  string      // class for the histogram
-	Key   string      // identity for distinct counting; "" = use Coq term
-	NonTrivial bool   // non-trivial by the property's rule
-	JSON  interface{} // human/replay form
+	Coq        string      // Coq term of the property's case type
+	Kind       string      // class for the histogram
+	Key        string      // identity for distinct counting; "" = use Coq term
+	NonTrivial bool        // non-trivial by the property's rule
+	JSON       interface{} // human/replay form
 }
 
 type Env struct {
-	Prop, Out string
-	Seed      uint64
-	Tier      string
-	Replay    string
-	Rng       *Rng
-	Header    string // Coq header: Require lines
-	CaseType  string // Coq type of a case
-	ShardSize int
+	Prop, Out  string
+	Seed       uint64
+	Tier       string
+	Replay     string
+	Rng        *Rng
+	Header     string // Coq header: Require lines
+	CaseType   string // Coq type of a case
+	ShardSize  int
 	ShardBytes int
-	cases     []Case
-	Extra     map[string]interface{} // additional summary keys
-	Rule      string
+	cases      []Case
+	Extra      map[string]interface{} // additional summary keys
+	Rule       string
 }
 
 func NewEnv(prop, out string, seed uint64, tier string) *Env {
